@@ -351,6 +351,12 @@ func (w *world) verify(step int) *failure {
 					return fail("[%s after op %d] FindByRequestID(%q, %s) returned %s, last recorded %s", db.n, step, w.names[d], r.req, trunc(js(sf.Status)), trunc(r.last))
 				}
 			}
+			for _, r := range runs {
+				// an id that was never recorded but shares the 8 characters the file name keeps
+				if sf, err := db.s.FindByRequestID(loc, r.req[:8]+"-never-recorded"); err == nil {
+					return fail("[%s after op %d] FindByRequestID(%q, %s-never-recorded) returned run %s although no run has that id", db.n, step, w.names[d], r.req[:8], sf.Status.RequestID)
+				}
+			}
 			if _, err := db.s.FindByRequestID(loc, "ffffffff-unknown"); err == nil {
 				return fail("[%s after op %d] FindByRequestID(%q, unknown id) returned a run", db.n, step, w.names[d])
 			}
